@@ -16,7 +16,7 @@ import tlc
 
 U = project.uncps
 
-PLANS = {"quick": [("fns", 1), ("logic", 2), ("arith", 1), ("strings", 1), ("misc", 1), ("fns", 4, 300), ("arith", 5, 300)],
+PLANS = {"quick": [("fns", 1), ("logic", 2), ("arith", 1), ("strings", 1), ("misc", 1), ("fns", 4, 200), ("arith", 5, 200)],
          "thorough": [("fns", 2), ("logic", 3), ("arith", 2), ("strings", 2), ("misc", 2), ("fns", 6, 4000), ("arith", 6, 3000), ("strings", 5, 2000)]}
 
 
@@ -82,8 +82,8 @@ def run(ctx):
             seen.add(kx)
             text = U(r["text"])
             fns = sorted(fn_names(r["tree"]))
-            light = (len(seen) % 5 != 0) and not fns          # operator-only filters: all on the base dialect,
-            for dname, tr in trans:                              # every 5th on the two derived dialects
+            light = (len(seen) % 8 != 0) and not fns          # operator-only filters: all on the base dialect,
+            for dname, tr in trans:                              # every 8th on the two derived dialects
                 if dname != "sql" and light:
                     continue
                 if dname == "sql" and (set(fns) & {"floor", "ceiling"}):
@@ -134,7 +134,47 @@ def run(ctx):
         info[cid] = ({"dialect": "sql", "fns": [fn], "probe": "pinned-template"}, probe, o[1], ("none", ""),
                      {"tree": tree, "text": project.cps(probe), "nops": 2, "nfields": 1, "leaves": [], "skels": []})
     validate(ctx, traces, info, tables)
+    durations(ctx, trans)
     ctx.exhaustive = False
+
+
+def durations(ctx, trans):
+    """duration literals (every sign x component subset x value tuple of MC_C06): the INTERVAL arithmetic the dialects emit,
+    read back by SqlRead, must carry exactly the literal's components and sign (Trace_Dur)"""
+    res = tlc.run("MC_C06", constants={"IdAtomsMax": 1, "OnlyFam": '"Duration"'},
+                  keep_lines=lambda r: r.get("k") == "case" and r["ctxt"] == "rhs", timeout=3000, check_count=False)
+    ctx.add_tlc(res)
+    traces, info = [], {}
+    for r in res.records:
+        text = "du" + U(r["text"])[1:]            # context "rhs" is  x eq <literal>
+        for dname, tr in trans:
+            o = tr.sql(text)
+            ctx.evaluations += 1
+            if o[0] != "ok":
+                ctx.violation({"dialect": dname, "what": "duration-" + o[0]}, {"text": text, "detail": o[1]})
+                continue
+            cid = len(traces) + 1
+            traces.append({"id": cid, "out": project.cps(o[1]), "mean": r["mean"]})
+            info[cid] = (dname, text, o[1])
+    if not traces:
+        return
+    path = os.path.join(tlc.BUILD, "trace_dur_%d.json" % os.getpid())
+    with open(path, "w") as f:
+        json.dump(traces, f)
+    try:
+        res = tlc.run("Trace_Dur", env={"TRACE_FILE": path}, check_count=False, keep_lines=lambda r: r.get("k") == "verdict", timeout=3000)
+    finally:
+        os.unlink(path)
+    ctx.add_tlc(res)
+    seen = {r["id"]: r["v"] for r in res.records}
+    if len(seen) != len(traces):
+        raise tlc.MachineryError("Trace_Dur: %d verdicts for %d traces" % (len(seen), len(traces)))
+    for cid, v in seen.items():
+        ctx.traces += 1
+        if v != "ok":
+            dname, text, sql = info[cid]
+            ctx.violation({"dialect": dname, "what": "duration-" + v}, {"text": text, "sql": sql})
+    ctx.notes["duration_literals_validated"] = len(traces)
 
 
 def slim(r):
